@@ -29,7 +29,7 @@ def run_case(f, meth, make_arg):
     I = new_interp(f, abstract=())
     sv = I.sym_value('sdt::Sdt', 'self')
     old = seqlen(sv.fields['data'].segs)
-    I.st.ranges[old] = (36, (1 << 64) - 1)
+    I.st.ranges[old] = (36, (1 << 63) - 1)
     arg, want = make_arg(I)
     sym.CTX = I.st.ranges
     try:
